@@ -37,7 +37,8 @@ def value_forms():
 
 
 def r1_agreement(rep, src, M):
-    worlds, fdump = M.dump_worlds()
+    substs = []
+    worlds, fdump = M.dump_worlds(substitutions=substs)
     alpha = M.alpha
     dom = M.domain('')
     langs = {
@@ -46,6 +47,28 @@ def r1_agreement(rep, src, M):
     }
     forms = value_forms()
     site = fdump.site
+    # a substitution applied to the stored text on its way out: harmless when no value of the domain contains the replaced text;
+    # otherwise the value v and the value v.replace(old, new) -- both in the domain -- are written as the same text, so whatever the
+    # reader does, one of the two does not come back (the writer must be injective on the domain)
+    for term, old_, new_, preds, line_ in substs:
+        what = 'line %d: %s.replace(%r, %r) keeps different values apart' % (line_, strlang.show(term), old_, new_)
+        if strlang.slots_of(term) != ['value'] or not isinstance(term, (strlang.Slot, strlang.Refine)):
+            raise AnalysisError('%s: line %d: substitution on %s, not on the stored value' % (site, line_, strlang.show(term)))
+        whole = None
+        for fterm in forms.values():
+            fl_ = strlang.TBuilder(alpha, [], lambda p: langs[p], {}).lang(fterm)
+            whole = fl_ if whole is None else whole.union(fl_)
+        hit = M.refine(whole, preds).intersect(M.pat('(?s:.*)' + re.escape(old_) + '(?s:.*)'))
+        v = hit.witness()
+        if v is None:
+            rep.ok('C02.R1', site, what, 'no value of the domain contains %r: the call is the identity there' % old_)
+            continue
+        v2 = v.replace(old_, new_)
+        if v2 != v and whole.accepts(v2):
+            rep.fail('C02.R1', site, what, 'the writer is not injective: the field values %r and %r are both valid and are both written as %r, so one of them is not '
+                     'read back' % (v, v2, v2), detail={'witness': v}, where=fdump.where)
+        else:
+            raise AnalysisError('%s: line %d: the effect of the substitution on the value %r is outside what this rule decides' % (site, line_, v))
     feasible = 0
     for fname, fterm in forms.items():
         fl = strlang.TBuilder(alpha, [], lambda p: langs[p], {}).lang(fterm)
